@@ -159,7 +159,10 @@ pub mod comp {
     }
     pub fn exec(func: &str, a: &mut Args) -> String {
         let exact = lattice_args(a);
+        // composite against composite: the pair poses go through two levels of frame changes
+        let pair = a.t.iter().filter(|t| matches!(**t, "compound" | "trimesh" | "polyline" | "heightfield")).count() >= 2;
         let out = exec0(func, a);
+        let out = if pair { format!("{} ; pair", out) } else { out };
         if exact { format!("{} ; exact", out) } else { out }
     }
     fn exec0(func: &str, a: &mut Args) -> String {
@@ -233,11 +236,20 @@ pub mod comp {
                 // (part i, X); the dispatcher sees a composite SECOND argument, swaps the roles and reaches the parts of X with the
                 // pair in the order (X-part j, part i).  The brute force calls the pair query in that same order and frame
                 // (an order-asymmetry of a pair query is a matter for C02/C03/C06, not a pruning fault).
-                let nested = matches!(x, Sh::Compound(_) | Sh::TriMesh(..));
-                // (pose of the second shape in the first one's frame, first, second, pose of part i, pose of X-part j, pose of X in part i's frame)
+                // (With X first the outer loop runs over the parts of X, the inner swap brings the pair back to (part i, X-part j).)
+                let xcomp = matches!(x, Sh::Compound(_) | Sh::TriMesh(..));
+                let nested = first && xcomp;
+                // With X (composite) first the outer loop runs over the parts of X, the inner call swaps and reaches the parts of
+                // `c`: the pair comes back in the order (part i, X-part j), its pose is composed as the real code composes it:
+                // `pose1 = q_j⁻¹·pos12`, then `pp_i⁻¹·pose1⁻¹`.
+                let nested2 = !first && xcomp;
+                // (pose of the second shape in the first one's frame, first, second, pose of part i, pose of X-part j, outer pose)
                 let pairs: Vec<(Isometry<Real>, &dyn Shape, &dyn Shape, Option<Isometry<Real>>, Option<Isometry<Real>>, Isometry<Real>)> = ps.iter().flat_map(|(pp, s)| {
                     let m0 = pp.as_ref().inv_mul(&pos_cx);
-                    xps.iter().map(move |(q, sx)| if nested { (q.as_ref().inv_mul(&m0.inverse()), &**sx, &**s, *pp, *q, m0) } else { (m0, &**s, &**sx, *pp, *q, m0) }) }).collect();
+                    xps.iter().map(move |(q, sx)|
+                        if nested { (q.as_ref().inv_mul(&m0.inverse()), &**sx, &**s, *pp, *q, m0) }
+                        else if nested2 { let pose1 = q.as_ref().inv_mul(&pos12); (pp.as_ref().inv_mul(&pose1.inverse()), &**s, &**sx, *pp, *q, pose1) }
+                        else { (match q { Some(q) => m0 * q, None => m0 }, &**s, &**sx, *pp, *q, m0) }) }).collect();
                 match func {
                     "composite_distance" => {
                         let got = match query::distance(p1, g1, p2, g2) { Ok(v) => v, Err(_) => return "unsupported ; unsupported".into() };
@@ -283,20 +295,51 @@ pub mod comp {
                         let got = match d.cast_shapes(&pos12, &vel12, g1, g2, opts) { Ok(v) => v, Err(_) => return "unsupported ; unsupported".into() };
                         let vel_cx = if first { vel12 } else { -pos12.inverse_transform_vector(&vel12) };
                         let mut pi = 0;
-                        let bf = minf(pairs.iter().filter_map(|(m, s, sx, pp, q, m0)| {
+                        let mut best_pair: Option<(f64, Isometry<Real>, Vector<Real>, usize)> = None;
+                        let bf = minf(pairs.iter().enumerate().filter_map(|(idx, (m, s, sx, pp, q, m0))| {
                             let v0 = match pp { Some(pp) => pp.inverse_transform_vector(&vel_cx), None => vel_cx };
-                            let v = if nested { let vin = -m0.inverse_transform_vector(&v0); match q { Some(q) => q.inverse_transform_vector(&vin), None => vin } } else { v0 };
+                            let v = if nested { let vin = -m0.inverse_transform_vector(&v0); match q { Some(q) => q.inverse_transform_vector(&vin), None => vin } }
+                                    else if nested2 { let v1 = match q { Some(q) => q.inverse_transform_vector(&vel12), None => vel12 }; let v2 = -m0.inverse_transform_vector(&v1);
+                                                      match pp { Some(pp) => pp.inverse_transform_vector(&v2), None => v2 } }
+                                    else { v0 };
                             let r = d.cast_shapes(m, &v, *s, *sx, opts);
-                            if std::env::var("VERIF_DBG").is_ok() { if let Ok(Some(h)) = &r { eprintln!("part {} {:?} toi {}", pi, s.as_triangle(), h.time_of_impact); } }
+                            if std::env::var("VERIF_DBG").is_ok() { if let Ok(Some(h)) = &r { eprintln!("part {} {:?} toi {} m {:?} v {:?} a {:?} b {:?}", pi, s.as_triangle(), h.time_of_impact, m, v, s.shape_type(), sx.shape_type()); } else { eprintln!("pair {} none m {:?} v {:?} a {:?} b {:?}", pi, m, v, s.shape_type(), sx.shape_type()); } }
                             pi += 1;
-                            r.ok().flatten().map(|h| h.time_of_impact) }));
+                            let t = r.ok().flatten().map(|h| h.time_of_impact);
+                            if let Some(t) = t { if best_pair.map(|b| t < b.0).unwrap_or(true) { best_pair = Some((t, *m, v, idx)); } }
+                            t }));
+                        // tie qualifier: the composite misses the earliest pair although the pair's own cast reports an impact - is that
+                        // impact a GRAZING one?  The two parts' boxes (second one moving with the pair's velocity) overlap during
+                        // [t_in, t_out]; when that interval is empty or a single instant the pair merely grazes (corner on corner, exactly
+                        // or within rounding) and the conservative box test of the visitor sits on the same knife edge
+                        let mut graze = "";
+                        if let Some((tb, m, v, idx)) = best_pair {
+                            if got.map(|h| h.time_of_impact > tb + 1.0e-4 * (1.0 + tb)).unwrap_or(true) {
+                                let (a_, b_) = (pairs[idx].1, pairs[idx].2);
+                                let (ba, bb) = (a_.compute_local_aabb(), b_.compute_aabb(&m));
+                                let (mut tin, mut tout) = (f64::NEG_INFINITY, f64::INFINITY);
+                                for k in 0..3 {
+                                    if v[k] == 0.0 { if bb.maxs[k] < ba.mins[k] || ba.maxs[k] < bb.mins[k] { tout = f64::NEG_INFINITY; } }
+                                    else { let (t1, t2) = ((ba.mins[k] - bb.maxs[k]) / v[k], (ba.maxs[k] - bb.mins[k]) / v[k]);
+                                           tin = tin.max(t1.min(t2)); tout = tout.min(t1.max(t2)); }
+                                }
+                                if tout - tin <= 1.0e-9 * (1.0 + tb.abs()) { graze = " ; graze"; }
+                            }
+                        }
+                        if std::env::var("VERIF_DBG").is_ok() && nested2 { for (j, (q, sx)) in xps.iter().enumerate() {
+                            let pose1 = q.as_ref().inv_mul(&pos12); let v1 = match q { Some(q) => q.inverse_transform_vector(&vel12), None => vel12 };
+                            eprintln!("X-part {} vs c: {:?}  (pose1 {:?} v1 {:?})", j, d.cast_shapes(&pose1, &v1, &**sx, &*gc, opts).map(|h| h.map(|h| (h.time_of_impact, h.status))), pose1, v1);
+                            let p2 = pose1.inverse(); let v2 = -pose1.inverse_transform_vector(&v1);
+                            eprintln!("   swapped c vs X-part {}: {:?} aabb2 {:?}", j, d.cast_shapes(&p2, &v2, &*gc, &**sx, opts).map(|h| h.map(|h| (h.time_of_impact, h.status))), sx.compute_aabb(&p2));
+                            for (k, (pp, s)) in ps.iter().enumerate() { let m = pp.as_ref().inv_mul(&p2); let v = match pp { Some(pp) => pp.inverse_transform_vector(&v2), None => v2 };
+                                eprintln!("      seg {} : {:?} aabb1 {:?}", k, d.cast_shapes(&m, &v, &**s, &**sx, opts).map(|h| h.map(|h| (h.time_of_impact, h.status))), s.compute_local_aabb()); } } }
                         if std::env::var("VERIF_DBG").is_ok() { for (k, (pp, s)) in ps.iter().enumerate() {
                             let m0 = pp.as_ref().inv_mul(&pos_cx); let v0 = match pp { Some(pp) => pp.inverse_transform_vector(&vel_cx), None => vel_cx };
                             eprintln!("outer part {} vs X: {:?}", k, d.cast_shapes(&m0, &v0, &**s, &*gx, opts).map(|h| h.map(|h| (h.time_of_impact, h.status))));
                             for (q, sx) in &xps { let m = match q { Some(q) => m0 * q, None => m0 };
                                 eprintln!("    pair: {:?} dist {:?}", d.cast_shapes(&m, &v0, &**s, &**sx, opts).map(|h| h.map(|h| (h.time_of_impact, h.status))), d.distance(&m, &**s, &**sx)); } } }
                         if std::env::var("VERIF_DBG").is_ok() { eprintln!("pos_cx {:?} vel_cx {:?} aabb_x {:?} aabb_c {:?}", pos_cx, vel_cx, gx.compute_aabb(&pos_cx), gc.compute_local_aabb()); }
-                        format!("{} ; {} ; lim {}", fo(got.map(|h| h.time_of_impact)), fo(bf), ff(max_toi))
+                        format!("{} ; {} ; lim {}{}", fo(got.map(|h| h.time_of_impact)), fo(bf), ff(max_toi), graze)
                     }
                 }
             }
